@@ -224,6 +224,9 @@ def run(ctx, rep):
         si = ds[0][0]
         if kind == "clear":
             inv = [i for i, t in b.calls() if re.search(r"VecDeque::<T, A>::clear$", callee_name(t))]
+            # equivalent ways to empty the buffer: drain(..) over the full range, truncate(0)
+            inv += [i for i, t in b.calls() if re.search(r"VecDeque::<T, A>::drain$", callee_name(t)) and "RangeFull" in " ".join(t["aty"])]
+            inv += [i for i, t in b.calls() if re.search(r"VecDeque::<T, A>::truncate$", callee_name(t)) and op_int(t["a"][1]) == 0]
         else:
             inv = []
             for bi, bl in enumerate(b.blocks):
